@@ -4,7 +4,9 @@ HOOK_COMMITS = ['836edf2']
 NOTES = ('Every check: (1) audits and builds the Coq development and re-checks Props/<ID>.v with Print Assumptions; '
          '(2) rebuilds the Go driver from /repo\'s working tree and compares the real code with the extracted model on generated cases. '
          'A mismatch on an observable the property constrains is reported as VIOLATION with the shrunk case as replay; '
-         'a broken proof obligation with no failing input found is reported as VIOLATION ... no-failing-input-found.')
+         'a broken proof obligation with no failing input found is reported as VIOLATION ... no-failing-input-found. '
+         'Known findings: /verif/KNOWN_FINDINGS.txt (read-only at run time): "finding:" lines name the exact failing observation that is reported as KNOWN-FINDING (exit 0); '
+         '"fixed:" lines are the history of the defects repaired in /repo by "fix:" commits and suppress nothing.')
 NOT_CLAIMED = {}
 
 _TB = ('Trusted: Coq kernel (vm_compute, no native_compute), no axioms declared; the hand model (Model/*.v) and its tie to the code '
